@@ -426,7 +426,7 @@ Fixpoint settle_loop (fuel : nat) (s : sys) : sys :=
   end.
 (* every turn consumes a queued message or at least two transport bytes *)
 Definition settle_fuel (s : sys) : nat :=
-  N.to_nat (lenN (msgq s) + total_len (segs (rd s)) + lenN (buf (fr s)) + 4).
+  N.to_nat (lenN (msgq s) + total_len (segs (rd s)) + lenN (zd (buf (fr s))) + 4).
 Definition settle (s : sys) : sys :=
   if hold s || negb (ctx_alive s) then s else settle_loop (settle_fuel s) s.
 
